@@ -144,7 +144,7 @@ Proof.
   assert (Hm : Forall (msg_ok gd) ms).
   { subst ms. apply Forall_app. split; [destruct ev; repeat constructor | destruct snd_; repeat constructor; exact Hg]. }
   destruct ms as [|m0 ms0] eqn:E; cbn; auto.
-  apply (exchange_tab_ok K gd (mkServer l (queue sv ++ [g]) (btab sv) (slog sv)) (m0 :: ms0)); auto.
+  apply (exchange_tab_ok K gd (mkServer l (if snd_ then [g] else []) (btab sv) (slog sv)) (m0 :: ms0)); auto.
 Qed.
 
 Definition acc_ok (K : cfg) (gd : list nat) (a : sacc) : Prop :=
